@@ -223,9 +223,9 @@ macro_rules! rowh {
 rowh!(c06_q_row_point, Point);
 // H: tier=quick; sym=payload of 14 minimal records; requested=MultipointM; asserts=as row_point
 rowh!(c06_q_row_multipointm, MultipointM);
-// H: tier=quick; sym=payload of 14 minimal records; requested=MultipointZ; asserts=as row_point
+// H: tier=thorough; sym=payload of 14 minimal records; requested=MultipointZ; asserts=as row_point
 rowh!(c06_q_row_multipointz, MultipointZ);
-// H: tier=quick; sym=payload of 14 minimal records; requested=PolylineZ; asserts=as row_point
+// H: tier=thorough; sym=payload of 14 minimal records; requested=PolylineZ; asserts=as row_point
 rowh!(c06_q_row_polylinez, PolylineZ);
 // H: tier=thorough; sym=payload of 14 minimal records; requested=PointM; asserts=as row_point
 rowh!(c06_t_row_pointm, PointM);
